@@ -12,7 +12,8 @@ EXPLANATION = (
     "the selector only if _handleConnection returned it, which happens only on the true edge of _handshake; the set of "
     "selector.register sites is frozen); _handshake accepts only MSG_CONNECT, returns true only for a CONNECTOK it really "
     "sent, stores CONNECTOK only after the denied-reason guard, the validator and the lookup of the requested object; silent "
-    "failure only for ConnectionClosedError; the request receiver accepts exactly INVOKE and PING. "
+    "failure only for ConnectionClosedError; the request receiver accepts exactly INVOKE and PING; the receive filter itself is sound; the "
+    "client decodes the connect answer with the answer's serializer (so a refusal is readable). "
     "Not decided: bytes the peer observes, validators returning odd values."
 )
 
